@@ -29,6 +29,7 @@ func strCode(s string) BigVal {
 
 func registerExtraModels(P *Program) {
 	registerRevocationModels(P)
+	registerEncodingModels(P)
 	m := P.models
 	// keyshareUserCommitmentsHash: SHA-256 over the CBOR encoding of the challenge
 	// input: an injective function of its structure (uninterpreted hash).
@@ -253,4 +254,90 @@ func (ex *Exec) hashBytesApply(kind string, args []BigVal, n int) []*smt.Term {
 	ex.hashes = append(ex.hashes, &HashApp{Kind: kind, Args: args, Bytes: bs})
 	ex.hashAx = nil
 	return bs
+}
+
+// ---------- Fiat-Shamir encoding (C15): asn1.Marshal + SHA-256 ----------
+
+type derElem struct {
+	Kind string // "bool" | "int"
+	Val  *smt.Term
+}
+
+func derKey(es []derElem) string {
+	k := ""
+	for _, e := range es {
+		k += e.Kind[:1]
+	}
+	return k
+}
+
+func (ex *Exec) specDigest(es []derElem) *smt.Term {
+	var hargs []BigVal
+	for _, e := range es {
+		hargs = append(hargs, BigVal{I: e.Val})
+	}
+	ex.stubs["SHA-256(DER(SEQUENCE of BOOLEAN/INTEGER)) is an injective uninterpreted function of the element list; encoding/asn1 and crypto/sha256 themselves are not encoded"] = true
+	return ex.hashApply("sha256(der:"+derKey(es)+")", hargs, 256)
+}
+
+func registerEncodingModels(P *Program) {
+	m := P.models
+	m["encoding/asn1.Marshal"] = func(ex *Exec, fn *ssa.Function, args []Value) (Value, bool) {
+		v := args[0].(Iface)
+		sl, ok := v.V.(Slice)
+		if !ok {
+			ex.unsupported("asn1.Marshal of %T", v.V)
+		}
+		var es []derElem
+		for i := 0; i < sl.Len; i++ {
+			e, ok := ex.load(sl.A.E[sl.Off+i]).(Iface)
+			if !ok || e.T == nil {
+				return Tuple{Slice{}, ex.freshError("asn1: nil element")}, true
+			}
+			switch x := e.V.(type) {
+			case *smt.Term:
+				if x.Sort == smt.Bool {
+					es = append(es, derElem{"bool", smt.Ite(x, smt.I64(1), smt.I64(0))})
+				} else {
+					es = append(es, derElem{"int", x})
+				}
+			case Pointer:
+				if x.C == nil {
+					return Tuple{Slice{}, ex.freshError("asn1: nil big.Int")}, true
+				}
+				b, ok := x.C.V.(BigVal)
+				if !ok {
+					ex.unsupported("asn1.Marshal element %T", x.C.V)
+				}
+				es = append(es, derElem{"int", b.I})
+			default:
+				ex.unsupported("asn1.Marshal element %T", e.V)
+			}
+		}
+		a := &ArrObj{}
+		ex.derBlobs[a] = es
+		return Tuple{Slice{A: a, Len: 0, Cap: 0}, Iface{}}, true
+	}
+	m["crypto/sha256.Sum256"] = func(ex *Exec, fn *ssa.Function, args []Value) (Value, bool) {
+		data := args[0].(Slice)
+		var h *smt.Term
+		if data.A != nil {
+			if es, ok := ex.derBlobs[data.A]; ok {
+				h = ex.specDigest(es)
+			}
+		}
+		if h == nil {
+			hargs := []BigVal{{I: smt.I64(int64(data.Len))}}
+			for k := 0; k < data.Len; k++ {
+				hargs = append(hargs, BigVal{I: term(ex.load(data.A.E[data.Off+k]))})
+			}
+			h = ex.hashApply("sha256bytes", hargs, 256)
+		}
+		arr := &Array{E: make([]Value, 32)}
+		for i := 0; i < 32; i++ {
+			arr.E[i] = smt.Mod(smt.Div(h, smt.Pow2(uint(8*(31-i)))), smt.I64(256))
+		}
+		ex.digestVals[arr] = h
+		return arr, true
+	}
 }
